@@ -222,6 +222,33 @@ pub fn digest_event_split(out: &mut dyn std::io::Write, alg: &str, n: usize, msg
     Ev::new(0, "digest").s("alg", alg).i("n", out_size(alg, n) as i64).s("tag", tag).s("cfg", cfg).bytes("msg", msg).bytes("out", &o).s("res", &res).emit(out);
 }
 
+/// chaining value (as the implementation stores it, read through hook H2) after `prefix` has been absorbed; None where no hook exists
+pub fn chain_of(alg: &str, prefix: &[u8]) -> Option<Vec<u8>> {
+    macro_rules! via {
+        ($T:ty, $conv:expr) => {{
+            let mut h = <$T>::default();
+            Digest::update(&mut h, prefix);
+            Some($conv(h.verif_chain()))
+        }};
+    }
+    let w32 = |w: [u32; 8]| -> Vec<u8> { w.iter().flat_map(|x| x.to_be_bytes()).collect() };
+    let w64 = |w: [u64; 8]| -> Vec<u8> { w.iter().flat_map(|x| x.to_be_bytes()).collect() };
+    match alg {
+        "Blake224" => via!(blake_hash::Blake224, w32),
+        "Blake256" => via!(blake_hash::Blake256, w32),
+        "Blake384" => via!(blake_hash::Blake384, w64),
+        "Blake512" => via!(blake_hash::Blake512, w64),
+        "Jh224" => via!(jh_x86_64::Jh224, |c: [u8; 128]| c.to_vec()),
+        "Jh256" => via!(jh_x86_64::Jh256, |c: [u8; 128]| c.to_vec()),
+        "Jh384" => via!(jh_x86_64::Jh384, |c: [u8; 128]| c.to_vec()),
+        "Jh512" => via!(jh_x86_64::Jh512, |c: [u8; 128]| c.to_vec()),
+        "Skein256" => via!(skein_hash::Skein256<U32>, |c: digest::generic_array::GenericArray<u8, U32>| c.to_vec()),
+        "Skein512" => via!(skein_hash::Skein512<U64>, |c: digest::generic_array::GenericArray<u8, U64>| c.to_vec()),
+        "Skein1024" => via!(skein_hash::Skein1024<U128>, |c: digest::generic_array::GenericArray<u8, U128>| c.to_vec()),
+        _ => None,
+    }
+}
+
 /// C04 / C06 / C07 (fixed-output families) and C05 (Skein): one-shot digests over a length sweep.
 pub fn drive_digests(out: &mut dyn std::io::Write, family: &str, seed: u64, thorough: bool, cfg: &str) {
     let mut rng = Rng::new(seed ^ 0xd16);
@@ -310,6 +337,47 @@ pub fn drive_digests(out: &mut dyn std::io::Write, family: &str, seed: u64, thor
                     }
                     let n = ns[idx % ns.len()];
                     digest_event_split(out, alg, n, &m, "blockpat", cfg, if idx % 5 == 0 { 1 + rng.below(0xffff) as usize } else { 0 });
+                }
+            }
+        }
+        // "echo" blocks: message blocks assembled from pieces of the chaining value they are compressed into (the IV for the
+        // first block, the value read through hook H2 after a prefix otherwise): message and state meet in the compression
+        // function, and equal / cancelling words there are unreachable by content that does not know the state
+        if family != "groestl" {
+            let nfix = if family == "skein" { b } else { 0 };
+            for (pi, plen) in [0usize, b, 2 * b].iter().enumerate() {
+                let prefix = rng.bytes(*plen);
+                if let Some(chain) = chain_of(alg, &prefix) {
+                    let mut variants: Vec<Vec<u8>> = vec![];
+                    // every 16-byte-aligned window of the chaining value at every 16-byte-aligned offset of an otherwise random block
+                    // (quick: 32-byte windows / offsets), the whole block taken from the chain, and its complement
+                    let step = if thorough { 16 } else { 32 };
+                    for woff in (0..chain.len()).step_by(step) {
+                        for boff in (0..b).step_by(step) {
+                            let wl = std::cmp::min(step, std::cmp::min(chain.len() - woff, b - boff));
+                            let mut blk = rng.bytes(b);
+                            blk[boff..boff + wl].copy_from_slice(&chain[woff..woff + wl]);
+                            variants.push(blk);
+                        }
+                    }
+                    let mut whole: Vec<u8> = chain.iter().cycle().take(b).cloned().collect();
+                    variants.push(whole.clone());
+                    for x in whole.iter_mut() {
+                        *x = !*x;
+                    }
+                    variants.push(whole);
+                    for (vi, blk) in variants.iter().enumerate() {
+                        if !thorough && family != "blake" && (vi + pi + ai + seed as usize) % 2 == 1 {
+                            continue;
+                        }
+                        let mut m = prefix.clone();
+                        m.extend_from_slice(blk);
+                        if vi % 2 == 0 {
+                            m.extend_from_slice(&blk[..7]);
+                        }
+                        let n = if family == "skein" { nfix } else { 0 };
+                        digest_event_split(out, alg, n, &m, "echo", cfg, if vi % 4 == 3 { *plen + 1 } else { 0 });
+                    }
                 }
             }
         }
